@@ -56,6 +56,48 @@ Definition receive (d : doc) (cs : list change) : res doc :=
   let (a', q') := release (S (length q)) (applied d) q in
   Ok (mkDoc a' q').
 
+(* --- the state a FAILED call leaves behind.  The code is not transactional here: when an
+   incoming change collides with an APPLIED (actor, seq) it first calls
+   [queue.remove_actor_branch_from(actor, seq + 1)] and then returns the error (C06 finding).
+   The other two error exits (collision with a queued change, collision inside the batch)
+   return without touching anything. *)
+Fixpoint first_applied_collision (d : doc) (batch cs : list change) : option change :=
+  match cs with
+  | [] => None
+  | c :: t =>
+    if ch_seq c <=? seq_for_actor (applied d) (ch_actor c) then Some c
+    else if has_actor_seq (queue d) c then None
+    else if has_hash batch (ch_hash c) then first_applied_collision d batch t
+    else if has_actor_seq batch c then None
+    else first_applied_collision d (batch ++ [c]) t
+  end.
+
+(* hashes of the queued changes removed by [remove_actor_branch_from]: the actor's changes with
+   seq >= s and, transitively, every queued change depending on a removed one *)
+Fixpoint branch_closure (fuel : nat) (q : list change) (removed : list N) : list N :=
+  match fuel with
+  | O => removed
+  | S f =>
+    let more := filter (fun c => negb (memb N.eqb (ch_hash c) removed)
+                                 && existsb (fun h => memb N.eqb h removed) (ch_deps c)) q in
+    match more with
+    | [] => removed
+    | _ => branch_closure f q (removed ++ hashes more)
+    end
+  end.
+
+Definition remove_actor_branch_from (q : list change) (a : actor) (s : N) : list change :=
+  let seed := hashes (filter (fun c => same_actor (ch_actor c) a && (s <=? ch_seq c)) q) in
+  let removed := branch_closure (length q) q seed in
+  filter (fun c => negb (memb N.eqb (ch_hash c) removed)) q.
+
+Definition receive_err_state (d : doc) (cs : list change) : doc :=
+  let fresh := filter (fun c => negb (has_hash (applied d) (ch_hash c) || has_hash (queue d) (ch_hash c))) cs in
+  match first_applied_collision d [] fresh with
+  | Some c => mkDoc (applied d) (remove_actor_branch_from (queue d) (ch_actor c) (ch_seq c + 1))
+  | None => d
+  end.
+
 Definition sortN (l : list N) : list N := isort N.compare l.
 
 Fixpoint dedupN (l : list N) : list N :=
